@@ -208,6 +208,8 @@ class CallMixin(ExprMixin):
             ts = z3.simplify(t)
             if z3.is_app(ts) and ts.decl().name() == "VGen":
                 return It("gen", [t], pending=U.acc("gexc", t))
+            if self.known_con(t) == "VStr" or (st.mode == "code" and not self.feasible(st, z3.Not(U.is_("VStr", t)))):
+                return It("str", [U.acc("s", t)])  # a str known from the path condition: its characters
             # list / nodelist / tuple / generator decided by the path condition
             if st.mode == "code":
                 if not self.feasible(st, z3.Not(U.is_("VGen", t))):
@@ -583,8 +585,12 @@ class CallMixin(ExprMixin):
         if name == "func_id":
             return self.int_(U.acc("fid", box()))
         if name in ("regex_fullmatch", "regex_search"):
-            f = self.uf(name, z3.StringSort(), self.V, z3.BoolSort())
-            return B(f(self.str_term(a[0]), box(1)))
+            # spec side of match()/search(): the same uninterpreted pieces as the model of the regex engine
+            # (calls._regex_call) -- a non-string subject or an uncompilable translation gives False
+            mp = self.str_term(self.speclib.apply("mapped_pattern", [T("str", self.str_term(a[0]))]))
+            raw = self.uf("regex_raw_" + name[6:], z3.StringSort(), z3.StringSort(), z3.BoolSort())
+            subj = box(1)
+            return B(z3.And(U.is_("VStr", subj), self.uf("regex_compilable", z3.StringSort(), z3.BoolSort())(mp), raw(mp, U.acc("s", subj))))
         if name == "iregexp_ok":
             return B(self.uf("iregexp_ok", z3.StringSort(), z3.BoolSort())(self.str_term(a[0])))
         if name == "str_count":
@@ -619,6 +625,38 @@ class CallMixin(ExprMixin):
         self.axioms.append(z3.ForAll([j], z3.Implies(z3.And(j >= 0, j < z3.Length(b)),
                                                       z3.And(self.U.is_("VInt", e), self.U.acc("i", e) >= 0, self.U.acc("i", e) <= 255))))
         return b
+
+    # ---- third-party regular expressions (assumed contracts of `iregexp_check` and `regex`) ----
+    def bi_iregexp_check_check(self, args, kwargs, st):
+        if st.mode == "code":
+            self.oblige(st, "safety:arg:check", self.is_kind(args[0], ["VStr"]), "iregexp_check.check(str)")
+        return self.ok(self.bool_(self.uf("iregexp_ok", z3.StringSort(), z3.BoolSort())(self.str_term(args[0]))), st)
+
+    def _regex_call(self, which, args, st):
+        """regex.fullmatch / regex.search (pattern, subject): TypeError for a subject that is not a string, regex.error for
+        a pattern the engine cannot compile, otherwise a match object or None"""
+        U = self.U
+        pat, subj = args[0], args[1]
+        if st.mode == "code":
+            self.oblige(st, f"safety:arg:{which}", self.is_kind(pat, ["VStr"]), "pattern is a str")
+        p = self.str_term(pat)
+        compilable = self.uf("regex_compilable", z3.StringSort(), z3.BoolSort())(p)
+        raw = self.uf("regex_raw_" + which, z3.StringSort(), z3.StringSort(), z3.BoolSort())
+        is_s = self.is_kind(subj, ["VStr"])
+
+        def good(s1):
+            hit = raw(p, self.str_term(subj))
+            return self.ok(Mt(z3.If(hit, z3.IntVal(0), z3.IntVal(-1)), self.str_term(subj), z3.IntVal(0)), s1)
+
+        return self.split(st, is_s,
+                          lambda a: self.split(a, compilable, good, lambda b: self.raise_(b, "re.error")),
+                          lambda c: self.raise_(c, "TypeError"))
+
+    def bi_re_fullmatch(self, args, kwargs, st):
+        return self._regex_call("fullmatch", args, st)
+
+    def bi_re_search(self, args, kwargs, st):
+        return self._regex_call("search", args, st)
 
     def bi_re_compile(self, args, kwargs, st):
         """a compiled pattern is an opaque value determined by its source text"""
